@@ -5,7 +5,8 @@ executed) by its identity (command name, collection), as the in-memory MongoDB r
 
   find -_-Collections, find -_-Clients                       (ProcessPushPull, before the handlers)
   find -_-Datatypes (by key and/or by id), find -_-Operations (evaluate / pull)
-  insert -_-Operations, update -_-Datatypes                   (commitToMongoDB: TWO independent writes)
+  delete -_-Operations (leftovers beyond the end of log), insert -_-Operations, update -_-Datatypes
+                                                              (commitToMongoDB: the datatype document is the commit point)
   then, after the response: find -_-Snapshots, find -_-Operations, insert -_-Snapshots, update <user collection>
 
 Only single-pack requests are modelled here (that is what the fault slices send).
@@ -13,9 +14,24 @@ Only single-pack requests are modelled here (that is what the fault slices send)
 import Orda.Model.Server
 namespace Orda
 
+/-- The datatype document is the commit point of a push: operation documents beyond its recorded end of
+    log (or without a datatype document) are leftovers of a push whose second write failed.  They are
+    never handed out, and the next push to that datatype removes them first.
+    Returns the committed view of the store and the leftovers. -/
+def Store.committedView (st : Store) : Store × List OpDoc :=
+  let isLeft (o : OpDoc) : Bool :=
+    match st.getDatatype o.duid with
+    | some d => decide (d.sseqEnd < o.sseq)
+    | none => true
+  ({ st with operations := st.operations.filter (fun o => !isLeft o) }, st.operations.filter isLeft)
+
+/-- leftovers survive a request unless it pushed operations to their datatype -/
+def Store.withLeftovers (st : Store) (left : List OpDoc) (pushedDuids : List String) : Store :=
+  { st with operations := st.operations ++ left.filter (fun o => !pushedDuids.contains o.duid) }
+
 inductive FaultAt where
   | findCollections | findClients | findDatatypes | findOperations
-  | insertOperations | updateDatatypes
+  | deleteLeftovers | insertOperations | updateDatatypes
   | background          -- a command of the post-response snapshot update before the snapshot is inserted
   | bgUserDoc           -- the final replace of the user-visible document
 deriving DecidableEq, Repr, Inhabited
@@ -49,7 +65,7 @@ def Store.processPushPullFault (st : Store) (colName cuid : String) (p : Pack) (
           else
             match f with
             | .findOperations => (st, .errPack 300, [])
-            | .insertOperations =>
+            | .deleteLeftovers | .insertOperations =>
               -- the insert is only issued when there is something to insert
               if r.pushed = 0 then
                 (r.store, .normal r.resp, r.notif.toList)
